@@ -90,7 +90,7 @@ def _z3_case(name, case, case_cond):
             L = _scalar(m.loading(p))
             back = _scalar(m.pressure(L))
             eng.prove(f"{base}/inverse.pressure_of_loading/scalar|{case}", sx.eq(back, p), extra={'replay': dict(replay, clause='inverse_pl')})
-        obs += collect(eng, run, base, 'inverse_pl|' + case)
+        obs += collect(eng, run, base, 'inverse_pl|' + case, replay=dict(replay, clause='inverse_pl'))
 
         # converse: loading(pressure(n)) == n for loadings the model can reach
         eng = sx.Engine(div0='nan', max_paths=256)
@@ -114,7 +114,7 @@ def _z3_case(name, case, case_cond):
                 eng.prove(f"{base}/inverse.pressure_in_validity_range/scalar|{case}", sx.And(pp > 0, pr['K'] * pp < 1), extra={'replay': dict(replay, clause='inverse_lp')})
             back = _scalar(m.loading(pp))
             eng.prove(f"{base}/inverse.loading_of_pressure/scalar|{case}", sx.eq(back, n), extra={'replay': dict(replay, clause='inverse_lp')})
-        obs += collect(eng, run2, base, 'inverse_lp|' + case)
+        obs += collect(eng, run2, base, 'inverse_lp|' + case, replay=dict(replay, clause='inverse_lp'))
 
     # zero point, sign, monotonicity, saturation bound
     eng = sx.Engine(div0='nan', max_paths=256)
@@ -139,7 +139,7 @@ def _z3_case(name, case, case_cond):
         eng.prove(f"{base}/monotone.loading_nondecreasing/two_point|{case}", L1 <= L2, extra={'replay': dict(replay, clause='monotone')})
         if name in SATURATION:
             eng.prove(f"{base}/bounded.by_saturation_capacity/scalar|{case}", L2 <= SATURATION[name](pr), extra={'replay': dict(replay, clause='bounded')})
-    obs += collect(eng, run3, base, 'shape|' + case)
+    obs += collect(eng, run3, base, 'shape|' + case, replay=dict(replay, clause='zero_p'))
 
     # arrays: object arrays of length 3 incl. a zero element, and 0-d
     if name != 'TemkinApprox':
